@@ -250,6 +250,8 @@ def translate(R, prog):
 
 
 def run(R, prog, tier):
+    R.guard(C.wake_reason_before_publish, R, prog, P)
+    R.guard(C.reason_not_overwritten, R, prog, P)    # the notification (-1) travels in error_number: an unlocked interrupt must not overwrite it (seed C03-5)
     R.guard(cvar_do_wait, R, prog)
     R.guard(wrappers, R, prog)
     R.guard(sleep_primitives, R, prog)
